@@ -310,13 +310,14 @@ PTS = ((), (3,), (0, 12))
 def _check_split(case):
     width, rate, ivs, oi, pi, flag, npi, ns = case[:8]
     off = F(1, 3) if len(case) > 8 and case[8] else F(0)  # entries moved off the sample grid by 1/3 sample
+    nbig = case[9] if len(case) > 9 else None  # the size axis: a longer recording (nbig samples) so that the tier can hold 10+ entries
     d = scratch_dir()
-    fn = _wavfile(width, rate, "split")
+    fn = _wavfile(width, rate, "split") if nbig is None else _big_wavfile(width, rate, nbig)
     base = os.path.splitext(os.path.basename(fn))[0]
     tgfn = os.path.join(d, "c17-split.TextGrid")
     od = os.path.join(d, "c17-out")
     shutil.rmtree(od, ignore_errors=True)
-    dur = N / rate
+    dur = (N if nbig is None else nbig) / rate
     E = [(float((F(a) + off) / rate), float((F(b) - off) / rate), "L%d" % i) for i, (a, b) in enumerate(ivs)]
     O = [(a / rate, b / rate, "O%d" % i) for i, (a, b) in enumerate(OTHERS[oi])]
     P = [(t / rate, "P%d" % i) for i, t in enumerate(PTS[pi])]
@@ -336,7 +337,7 @@ def _check_split(case):
     if len(wavs) != len(ivs) or len(tgs) != (len(ivs) if flag else 0) or len(r) != len(ivs):
         return 1, "!", None, [Viol("split-file-count", f"{tag}: files {files}, returned {r}; expected one wav per entry and "
                                                        f"{'one' if flag else 'no'} TextGrid per entry")]
-    s = list(SAMPLES)
+    s = list(SAMPLES) if nbig is None else _big_samples(nbig, width)
     digits = int(math.floor(math.log10(len(ivs)))) + 1
     for i, ((a, b), (rs, re_, name)) in enumerate(zip(ivs, r)):
         label = "L%d" % i
@@ -448,6 +449,12 @@ def parts(tier):
                                     yield (width, rate, ivs, oi, pi, flag, npi, ns)
                                     if ns is None and all(b - a >= 2 for a, b in ivs):
                                         yield (width, rate, ivs, oi, pi, flag, npi, ns, True)
+        # the size axis: 9 .. 101 target entries (file numbering with one, two and three digits) on a longer recording
+        for k in (9, 10, 11, 12, 100, 101):
+            ivs = tuple((3 * i, 3 * i + 2) for i in range(k))
+            for flag in (False, True):
+                for ns in (None, "append", "append_no_i", "label"):
+                    yield (2, 8, ivs, 0, 0, flag, False, ns, False, 3 * k + 4)
 
     def gen_reuse():
         small = [x for x in sets if x and len(x) <= 2]
